@@ -121,6 +121,11 @@ func main() {
 		for i, k := range kinds {
 			sc.EPs = append(sc.EPs, mkEP(i, k, r, bal))
 		}
+		if len(scs)%4 == 3 { // endpoint urls configured in the documented trailing-slash forms
+			for range kinds {
+				sc.BasePaths = append(sc.BasePaths, []string{"/", "/api/", "", "/"}[(len(scs)/4+len(sc.BasePaths))%4])
+			}
+		}
 		scs = append(scs, sc)
 		fam = append(fam, family)
 	}
